@@ -216,3 +216,47 @@ def rule_switch(ctx: Ctx, rid: str) -> int:
                         ok = got == want
         ctx.ob(rid, rel, fn, f"{q}: njit(parallel={got or 'absent'})", ok, expected=f"parallel={SWITCH}", detail="every parallel kernel must honour the PANDORA_NUMBA_PARALLEL switch (the documented way to get schedule-free results); a hard-coded parallel=True ignores it, and a prange without parallel= runs sequentially whatever the switch")
     return n
+
+
+# --------------------------------------------------------------------------------------
+# IEEE: compiled kernels keep IEEE-754 semantics (NaN / inf guards must not be folded away)
+# --------------------------------------------------------------------------------------
+_IEEE_POSITIVE = '''
+@njit(fastmath=True)
+def k(x):
+    if np.isnan(x):
+        return 0.0
+    return x
+'''
+
+
+def _relaxed_math(fn: ast.AST):
+    """[(decorator, option text)] for jit decorators that relax floating-point semantics."""
+    out = []
+    for d in getattr(fn, "decorator_list", []):
+        if isinstance(d, ast.Call) and (dotted(d.func) or "").split(".")[-1] in ("njit", "jit", "vectorize", "guvectorize", "stencil"):
+            for k in d.keywords:
+                if k.arg == "fastmath" and not (isinstance(k.value, ast.Constant) and k.value.value is False):
+                    out.append((d, f"fastmath={canon(k.value)}"))
+    return out
+
+
+def rule_ieee(ctx: Ctx, rid: str, files=None) -> int:
+    """No compiled kernel is built with fastmath: numba's fastmath assumes no NaN and no inf, so `np.isnan(x)` /
+    `x != x` / comparisons with inf are folded to constants and every NaN-based guard of the kernel silently vanishes.
+    Returns the number of jit-decorated functions examined."""
+    pos = ast.parse(_IEEE_POSITIVE).body[0]
+    if not _relaxed_math(pos):
+        raise AnalysisError(f"{rid}: the positive example (@njit(fastmath=True)) is no longer recognised")
+    n = 0
+    for rel in ctx.tree.py_files("pandora"):
+        if files is not None and rel not in files:
+            continue
+        for q, fn in sorted(ctx.tree.funcs(rel).items()):
+            jit = [d for d in fn.decorator_list if (dotted(d.func if isinstance(d, ast.Call) else d) or "").split(".")[-1] in ("njit", "jit", "vectorize", "guvectorize", "stencil")]
+            if not jit:
+                continue
+            n += 1
+            bad = _relaxed_math(fn)
+            ctx.ob(rid, rel, bad[0][0] if bad else fn, f"{q}: compiled with IEEE-754 semantics ({bad[0][1] if bad else 'no fastmath'})", not bad, expected="no fastmath option on a kernel of the pipeline", detail="fastmath lets the compiler assume that no value is NaN or infinite: the kernel's `np.isnan(...)` / isfinite / inf comparisons are folded away, so its NaN guards (invalid costs, 'no valid neighbour found', masked pixels) stop working without any error")
+    return n
